@@ -242,7 +242,7 @@ impl Monitor for C15 {
                             col.event(&format!("decided:{}", name));
                             if !setvalued && decided != ref_true {
                                 viol(col, &format!("C15|decision|{}|impl={} ref={}|{}", fam, onoff(decided), onoff(ref_true), cc), "LDRO decision differs from the 16.38 ms rule", || {
-                                    json!({"input": input, "decided_raw": d, "reference": ref_true, "tsym_us_exact": format!("{}/{}", (1u64 << sf) * BW_DIV[bwi] * 2, 1), "tsym_ms": ((1u64 << sf) * BW_DIV[bwi]) as f64 / 500.0})
+                                    json!({"input": input, "decided_raw": d, "reference": ref_true, "tsym_ms": ((1u64 << sf) * BW_DIV[bwi]) as f64 / 500.0})
                                 });
                             }
                             if imp != 0 {
